@@ -737,8 +737,11 @@ def do_directions(part, start, end, counter):
         unit = "q" if tempo.unit is None else tempo.unit
         # e2.text = '{}={}'.format(unit, tempo.bpm)
         # result.append((tempo.start.t, None, e0))
+        qtempo = to_quarter_tempo(unit, tempo.bpm)
+        # whole numbers are written without a fractional part
         e3 = etree.Element(
-            "sound", tempo="{}".format(int(to_quarter_tempo(unit, tempo.bpm)))
+            "sound",
+            tempo="{}".format(int(qtempo) if qtempo == int(qtempo) else qtempo),
         )
         result.append((tempo.start.t, None, e3))
 
